@@ -78,6 +78,20 @@ F.append(dict(id='F04', property='C11', status='open', clause_kind='views_disagr
               text='a CumulativeWorker listed inside a SelectWorkers gets its busy interval on the wrapper object, which build_solution '
                    '(and initialize) never visit: tasks list it, no resource report mentions them [F04]'))
 
+F.append(dict(id='F25', property='C16', status='open', clause_kind='excel_negative_start',
+              witness=dict(program_pretty=['an optional task left unscheduled (reported start = end = -task_number)', 'solution.to_excel_file(f)'],
+                           observed='the Task view writes the bar of the unscheduled task at column start + 1 <= 0: column 0 is the task-name column (the name of '
+                                    'the first task is overwritten), negative columns are dropped by xlsxwriter'),
+              text='Excel export: a task reported with a negative start (an unscheduled optional task sits at -task_number) is written at column start + 1 <= 0: '
+                   'over the task-name column or nowhere [F25]'))
+
+F.append(dict(id='F25b', property='C16', status='open', clause_kind='excel_cells_overwritten',
+              witness=dict(program_pretty=['a worker with a zero-length busy interval (dynamic assignment, or a ZeroDurationTask) at instant x',
+                                           'and another assignment of the same worker covering [x, x+1)', 'solution.to_excel_file(f)'],
+                           observed='both are written to column x + 1 of the same row: the later write replaces the earlier one'),
+              text='Excel export: a zero-length assignment is written as one cell, like a unit-length one, and may overwrite (or be overwritten by) '
+                   'another assignment of the same row [F25]'))
+
 F.append(dict(id='F22', property='C13', status='open', clause_kind='reinit-multiobjective',
               witness=dict(case='corpus/C13/F22.json'),
               text="initialize() a second time (or a second SchedulingSolver) on a problem with two objectives raises ValueError: build_equivalent_weighted_objective registers 'EquivalentIndicator' / 'MinimizeEquivalentObjective' in the problem itself [F22]"))
